@@ -38,6 +38,8 @@ func (m *Machine) CallFunction(fn *ssa.Function, args []Value, env []Value) Valu
 		m.unsupported("no body: " + fn.String())
 	}
 	m.Res.Funcs[fn.String()] = true
+	m.callStack = append(m.callStack, fn)
+	defer func() { m.callStack = m.callStack[:len(m.callStack)-1] }()
 	m.depth++
 	if m.depth > 400 {
 		m.end("unwind", "call depth exceeded in "+fn.String())
